@@ -38,7 +38,7 @@ AllocNode ==
   /\ first' = next[first]
   /\ next' = [a \in DOMAIN next \ {first} |-> next[a]]
   /\ cap' = cap - 1
-  /\ hist' = Append(hist, [op |-> "an", k |-> 0])
+  /\ hist' = Append(hist, [op |-> "an", k |-> 0, res |-> first])
 
 (* list_search_array: returns <<prev, first, last, next>> or <<-1,..>> *)
 RECURSIVE Search(_, _, _, _, _, _)
@@ -58,7 +58,7 @@ AllocArray(h) ==
               /\ first' = IF r[1] = NULL THEN r[4] ELSE first
               /\ next' = [a \in DOMAIN next \ taken |-> IF a = r[1] THEN r[4] ELSE next[a]]
               /\ cap' = cap - k
-  /\ hist' = Append(hist, [op |-> "aa", k |-> h])
+  /\ hist' = Append(hist, [op |-> "aa", k |-> h, res |-> Search(NULL, first, first, next[first], 1, CeilHalf(h))[2]])
 
 Dealloc(a) ==
   /\ a \in live
@@ -68,7 +68,7 @@ Dealloc(a) ==
         /\ first' = a.first
         /\ cap' = cap + back
         /\ live' = live \ {a}
-  /\ hist' = Append(hist, [op |-> "da", k |-> Rank(a)])
+  /\ hist' = Append(hist, [op |-> "da", k |-> Rank(a), res |-> -1])
 
 Next == AllocNode \/ (\E h \in 3..MaxHalves : AllocArray(h)) \/ (\E a \in live : Dealloc(a))
 Spec == Init /\ [][Next]_vars
